@@ -77,6 +77,10 @@ class FnSpec:
     def setup(self, ex, st, a):
         """Extra facts about the initial state when verifying the body (closure facts, ghost)."""
 
+    def static_checks(self, fnode):
+        """Syntactic obligations on the unit's AST: [(name, bool)]."""
+        return []
+
 
 def params_of(fnode):
     a = fnode.args
@@ -132,8 +136,12 @@ def apply_contract(spec, fnode):
             ex.oblige(st, "%s.requires.%s" % (tag, nm), f, kind="requires")
         pre = st.copy()
         ghost = spec.call_events(ex, st, Ctx(ex, pre, st, a)) or {}
-        for fld, ref in spec.modifies(Ctx(ex, pre, st, a, ghost)):
-            st.put(fld, ref, fresh("mod_" + fld.replace(":", "_"), field_sort(fld).range()))
+        for m in spec.modifies(Ctx(ex, pre, st, a, ghost)):
+            fld, ref = m[0], m[1]
+            nv = fresh("mod_" + fld.replace(":", "_"), field_sort(fld).range())
+            if len(m) == 3:  # guarded entry: the object is in the modifies clause only if the guard holds
+                nv = z3.If(m[2], nv, st.get(fld, ref))
+            st.put(fld, ref, nv)
         out = []
         # normal return
         s = st.copy()
@@ -229,6 +237,8 @@ def verify_unit(spec, registry, fuel=2, timeout_ms=10000, mutate=None, prop=None
     t0 = time.time()
     try:
         st, a = initial_state(ex, spec, fnode)
+        for nm, okv in spec.static_checks(fnode):
+            ex.obls.append(Obligation("%s/static.%s" % (ex.unit_name, nm), [], z3.BoolVal(bool(okv)), "static", {"path": ["static"], "trivial": bool(okv)}))
         c = Ctx(ex, st, st, a)
         st.assume(*[f for _, f in spec.requires(c)])
         for nm, inv in registry.heap_invariants:
@@ -265,7 +275,7 @@ def verify_unit(spec, registry, fuel=2, timeout_ms=10000, mutate=None, prop=None
                 if fld in pre.heap and arr.eq(pre.heap[fld]):
                     continue
                 r = fresh("frame_r")
-                excl = [r != m for f2, m in mods if f2 == fld]
+                excl = [(r != m[1]) if len(m) == 2 else z3.Or(z3.Not(m[2]), r != m[1]) for m in mods if m[0] == fld]
                 parts.append(("%s.frame.%s" % (tag, fld),
                               z3.Implies(z3.And([r < pre.ctr] + excl), z3.Select(arr, r) == z3.Select(pre.field(fld), r)), "frame"))
             # one VC per exit path (conjunction of its clauses); split again only if it does not discharge
